@@ -52,18 +52,18 @@ fn flush(out: &mut std::fs::File) {
     out.flush().expect("flush");
 }
 
-fn run_prog(ctx: &Ctx, spin: u32) -> Out {
+fn run_prog(ctx: &Ctx, spin: u32, logcalls: bool) -> Out {
     let p = &ctx.prog;
     let shape = p.shape();
     match p.src.as_str() {
         "vec" => shapes::run_vec(&shape, ctx, exec::items_of(p)),
-        "iter" => shapes::run_iter(&shape, ctx, exec::SrcIter::new(exec::items_of(p), true, spin)),
-        "iterx" => shapes::run_iter(&shape, ctx, exec::SrcIter::new(exec::items_of(p), false, spin)),
+        "iter" => shapes::run_iter(&shape, ctx, exec::SrcIter::new(exec::items_of(p), true, spin, logcalls)),
+        "iterx" => shapes::run_iter(&shape, ctx, exec::SrcIter::new(exec::items_of(p), false, spin, logcalls)),
         "slice" => {
             let items = exec::items_of(p);
             shapes::run_slice(&shape, ctx, &items[..])
         }
-        "range" => shapes::run_range(&shape, ctx, p.input.len()),
+        "range" => shapes::run_range(&shape, ctx, p.len()),
         "inf" => shapes::run_inf(&shape, ctx, exec::Unbounded::new(p.input.clone())),
         "deque" => shapes::run_deque(&shape, ctx, exec::items_of(p).into_iter().collect()),
         "list" => shapes::run_list(&shape, ctx, exec::items_of(p).into_iter().collect()),
@@ -84,9 +84,21 @@ fn ints<T: std::fmt::Display>(v: impl Iterator<Item = T>) -> String {
     s
 }
 
-fn log_te(out: &Result<Out, ()>) {
+const HM: u64 = 46_337;
+
+fn log_te(out: &Result<Out, ()>, big: bool) {
+    // digests of a collected sequence (compared by the monitor for big programs)
+    let (mut hs, mut hu) = (0u64, 0u64);
+    if let Ok(Out::Col(v)) = out {
+        for e in v.iter() {
+            let x = (e.key as u64 * 7 + e.val as u64 + 1) % HM;
+            hs = (hs * 31 + x) % HM;
+            hu = (hu + (x * x) % HM) % HM;
+        }
+    }
     let (kind, rk, rv, n, found, idx, b) = match out {
         Err(()) => ("panic", "[]".to_string(), "[]".to_string(), 0usize, 0, -1i64, 0),
+        Ok(Out::Col(v)) if big => ("col", ints(v.iter().take(8).map(|e| e.key)), ints(v.iter().take(8).map(|e| e.val)), v.len(), 0, -1, 0),
         Ok(Out::Col(v)) => ("col", ints(v.iter().map(|e| e.key)), ints(v.iter().map(|e| e.val)), v.len(), 0, -1, 0),
         Ok(Out::Cnt(n)) => ("cnt", "[]".into(), "[]".into(), *n, 0, -1, 0),
         Ok(Out::Opt(None)) => ("opt", "[]".into(), "[]".into(), 0, 0, -1, 0),
@@ -97,8 +109,10 @@ fn log_te(out: &Result<Out, ()>) {
         Ok(Out::Unit) => ("unit", "[]".into(), "[]".into(), 0, 0, -1, 0),
     };
     sched::log(&format!(
-        "\"e\":\"te\",\"t\":{},\"kind\":\"{}\",\"rk\":{},\"rv\":{},\"n\":{},\"found\":{},\"idx\":{},\"b\":{}",
+        "\"e\":\"te\",\"t\":{},\"hs\":{},\"hu\":{},\"kind\":\"{}\",\"rk\":{},\"rv\":{},\"n\":{},\"found\":{},\"idx\":{},\"b\":{}",
         sched::tid(),
+        hs,
+        hu,
         kind,
         rk,
         rv,
@@ -166,9 +180,9 @@ fn cmd_run(inp: &str, outp: &str) {
 
         let ctx = Ctx::new(&job.p);
         let spin = job.spin;
-        let res = std::panic::catch_unwind(std::panic::AssertUnwindSafe(|| run_prog(&ctx, spin)));
+        let res = std::panic::catch_unwind(std::panic::AssertUnwindSafe(|| run_prog(&ctx, spin, job.logcalls != 0)));
         let res = res.map_err(|_| ());
-        log_te(&res);
+        log_te(&res, job.p.is_big());
         drop(res);
         drop(ctx);
         {
